@@ -556,6 +556,12 @@ func MayDerive[S, A any](c *Ctx, label string, derive func() optics.Lens[S, A], 
 	if p := catch(func() { lens = derive() }); p != nil {
 		return
 	}
+	if inPlaceLens(lens, vals, fill) {
+		// the statement asks for "a field whose declared type is identical to the requested type" with reads and writes inside
+		// that field: when the container itself holds a field of that type (same name, same offset as pointer offset + inner
+		// offset - it happens on 386 for shape Q2) an optic on that field is a lawful answer too
+		return
+	}
 	for i := range vals {
 		for j := range vals {
 			subj, twin := newBox(fill, i), newBox(fill, i)
@@ -584,6 +590,53 @@ func MayDerive[S, A any](c *Ctx, label string, derive func() optics.Lens[S, A], 
 			}
 		}
 	}
+}
+
+// inPlaceLens reports whether lens behaves exactly like a lens on one of the fields of type A that S holds in its own
+// memory (directly or through value-embedded structs): Get reads that field, Put changes that field and no other byte.
+func inPlaceLens[S, A any](lens optics.Lens[S, A], vals []A, fill func(*S, int)) bool {
+	at := reflect.TypeOf(new(A)).Elem()
+	var offs []uintptr
+	var walk func(t reflect.Type, base uintptr)
+	walk = func(t reflect.Type, base uintptr) {
+		for i := 0; i < t.NumField(); i++ {
+			f := t.Field(i)
+			if f.Type == at {
+				offs = append(offs, base+f.Offset)
+			}
+			if f.Anonymous && f.Type.Kind() == reflect.Struct {
+				walk(f.Type, base+f.Offset)
+			}
+		}
+	}
+	walk(reflect.TypeOf(new(S)).Elem(), 0)
+	for _, o := range offs {
+		ok := true
+		for i := range vals {
+			for j := range vals {
+				subj := newBox(fill, i)
+				twin := twinOf(subj)
+				fs := (*A)(unsafe.Add(unsafe.Pointer(&subj.v), o))
+				ft := (*A)(unsafe.Add(unsafe.Pointer(&twin.v), o))
+				if p := catch(func() {
+					if !eq(lens.Get(&subj.v), *fs) {
+						ok = false
+					}
+					lens.Put(&subj.v, vals[j])
+				}); p != nil {
+					ok = false
+				}
+				*ft = vals[j]
+				if diff(subj, twin) != "" {
+					ok = false
+				}
+			}
+		}
+		if ok {
+			return true
+		}
+	}
+	return false
 }
 
 // ReflectorRejects: the reflector must refuse arg (anything but a pointer to its own container type) by
